@@ -5,10 +5,12 @@ claim('C01', 'other', 'contract-based deductive verification: VCs generated from
       'Unbounded proof that every operator, every GateType constant and every foreign gate table (synthesis codes, arithmetic codes) denotes the one fixed OP(t) for all Boolean arguments and all arities; '
       'bench conversion and pattern simulation likewise; evaluate_full_circuit AND the stack-based evaluate_circuit are proved to return den for every gate / requested output of every well-formed circuit (loop invariants; top_sort by its contract, proved under C20). The thin wrappers (evaluate, evaluate_at, truth tables) are exercised by the bounded stand-in, so the claim is not `proof`.',
       T_ASSUME + 'Bounded part: circuits with <=2 gates exhaustive, seeded random up to 7 gates.', 'DESIGN.md §6 C01')
-claim('C05', 'other', 'contract-based deductive verification of the Tseytin templates (loop invariants over a CNF view), dispatch proved on one-gate circuits; bounded brute force for whole circuits',
-      'Every _process_* template is proved equivalent to top = OP(t)(lits) for all literals (and/nand/or/nor for every arity by loop invariant, xor/nxor for arities 2..5); '
-      'tseytin_transformation is symbolically executed on one-gate circuits of every type; whole-circuit exactness is bounded.',
-      T_ASSUME + 'SAT solver soundness/completeness assumed (python-sat absent; z3-backed shim in the bounded layer).', 'DESIGN.md §6 C05')
+claim('C05', 'other', 'contract-based deductive verification of the Tseytin transformation: templates (loop invariants over a CNF view), both loops of tseytin_transformation by invariants and the memoised recursion process_gate by its contract on an arbitrary circuit; bounded brute force for whole circuits',
+      'Every _process_* template is proved equivalent to top = OP(t)(lits) for all literals (and/nand/or/nor for every arity by loop invariant, xor/nxor for arities 2..5). tseytin_transformation is proved on an ARBITRARY well-formed circuit and any selection of outputs '
+      '(gate arities under contract: fixed-arity types, n-ary types with 2 or 3 operands, constants without operands): the i-th input is variable i+1, literals are injective, encoded gates are closed under operands, and for every valuation the CNF is satisfied exactly when every encoded gate '
+      'obeys its gate equation and every selected output is true (invariants of both loops; process_gate verified against its contract per gate type/arity, recursive calls by the contract). Rule R2 lifts this to the statement about evaluation. '
+      'The solver hand-back (is_circuit_satisfiable), larger arities inside whole circuits and the end-to-end statement are exercised by the bounded stand-in, so the claim is not `proof`.',
+      T_ASSUME + 'SAT solver soundness/completeness assumed (python-sat absent; z3-backed shim in the bounded layer); proof rule for recursive procedures (partial correctness); rule R2.', 'DESIGN.md §6 C05')
 claim('C14', 'other', 'contract-based deductive verification on an abstract heap (state as substitution): convert_gate with all callees inlined, WF/frame/local-equation obligations, loop invariant by prefix-count view',
       'For an arbitrary well-formed circuit and an arbitrary gate of each of the 18 types, convert_gate preserves WF (users multiset, inputs, outputs, acyclicity via ghost rank, blocks), '
       'changes only that gate plus one fresh helper, keeps the local gate equation, leaves only bench types and puts the helper into the blocks of the gate — proved for all circuits; into_bench as a whole is bounded.',
